@@ -6,9 +6,15 @@ import GMModel.PyStr
   The WRITER is a state machine over the operations a client can perform on `GroFile(path, 'w')`;
   its state mirrors the attributes of the object (`_comment`, `_natoms`, `_init_position`,
   `_atomline_bytesize`, `_format`, `_box_matrix`, `_current_atom`) plus the file (bytes + cursor).
+  Operations: the four setters (`box_matrix` also with a wrong shape), `writeline` of a record (tuple of
+  length 7 / 10), of a tuple of any other length, of a pre-formatted string (first line: parsed and re-emitted;
+  later lines: verbatim), `close` (incl. "Closing an empty file").
   The READER follows `_load_and_verify` / `_load_box_matrix` / `seek_atom` / `readline` /
   `parse_atomline` / `determine_format`; the numeric parsers enter through a `Parsers` record so
-  that C14 can quantify over them.
+  that C14 can quantify over them. After opening it is a cursor machine (`RCur`: header, `tell()`,
+  `_current_atom`) over `seek_atom`, `readline(parsed=…)` and the setters (which raise in read mode).
+  Not modelled: `seek_atom` as a client operation in write mode, `writeline` in read mode, an already open
+  file object / the `'+'` modes, `writelines` (a loop over `writeline`), the `name` property.
 
   The model is of the code AS REPAIRED for
     D2: `_setup_write_file` initialises `_format["velocities"]` independently of the position format,
@@ -110,6 +116,82 @@ def extractLattice (pyFloat : List Nat → Except PyErr PyNum) (line : List Nat)
   let g := nthOrZero nums
   pure ⟨g 0, g 3, g 4, g 5, g 1, g 6, g 7, g 8, g 2⟩
 
+/-! ## one atom line: `determine_format`, `parse_atomline` -/
+
+/-- the parsers the reader calls: `int`, `float` and `GroFile.determine_format` -/
+structure Parsers where
+  pyInt : List Nat → Except PyErr Int
+  pyFloat : List Nat → Except PyErr PyNum
+  detFormat : List Nat → Except PyErr (Nat × Int × Bool)
+
+/-- `GroFile.determine_format(atomline)` → `((nfigures, ndecimals), velocities)` -/
+def determineFormat (line : List Nat) : Except PyErr (Nat × Int × Bool) :=
+  match line.getLast? with
+  | none => .error .indexError                 -- `atomline[-1]` on ''
+  | some _ =>
+    let l := chopNl line
+    let size := l.length
+    if l.count nl > 0 then .error .valueError
+    else
+      let ndots := (l.drop coordStart).count dot
+      if ndots ≠ 3 ∧ ndots ≠ 6 then .error .ioError
+      else
+        let nfigures := (size - coordStart) / ndots
+        if size ≠ coordStart + ndots * nfigures then .error .ioError
+        else .ok (nfigures, (nfigures : Int) - 5, ndots == 6)
+
+def stdParsers : Parsers := ⟨pyInt, pyFloat, determineFormat⟩
+
+/-- `except ValueError: raise IOError(...)` -/
+def valueToIO {α : Type} : Except PyErr α → Except PyErr α
+  | .error .valueError => .error .ioError
+  | r => r
+
+/-- `GroFile.parse_atomline(atomline, format_dict)` with a given format -/
+def parseAtomline (P : Parsers) (fmt : Nat × Int × Bool) (line : List Nat) : Except PyErr RRec :=
+  match line.getLast? with
+  | none => .error .indexError
+  | some _ => do
+    let l := chopNl line
+    let space := fmt.1
+    let vel := fmt.2.2
+    let expected := 20 + space * 3 * (1 + (if vel then 1 else 0))
+    if l.length ≠ expected then throw .ioError
+    let resnum ← valueToIO (P.pyInt (slice l 0 5))
+    let atomnum ← valueToIO (P.pyInt (slice l 15 20))
+    let resname := strip (slice l 5 10)
+    let name := strip (slice l 10 15)
+    let x ← P.pyFloat (slice l 20 (20 + space))
+    let y ← P.pyFloat (slice l (20 + space) (20 + 2 * space))
+    let z ← P.pyFloat (slice l (20 + 2 * space) (20 + 3 * space))
+    if vel then
+      let vx ← P.pyFloat (slice l (20 + 3 * space) (20 + 4 * space))
+      let vy ← P.pyFloat (slice l (20 + 4 * space) (20 + 5 * space))
+      let vz ← P.pyFloat (slice l (20 + 5 * space) (20 + 6 * space))
+      pure ⟨resnum, resname, name, atomnum, x, y, z, some (vx, vy, vz)⟩
+    else
+      pure ⟨resnum, resname, name, atomnum, x, y, z, none⟩
+
+/-- `GroFile.parse_atomline(atomline)` with `format_dict=None`: the format is `determine_format(atomline)`
+    (which raises `IndexError` on the empty string before anything else) -/
+def parseAtomlineAuto (P : Parsers) (line : List Nat) : Except PyErr RRec := do
+  let fmt ← P.detFormat line
+  parseAtomline P fmt line
+
+/-- the tuple `parse_atomline` returns, as an argument of `parse_atomlist`: every `float` object is the
+    double nearest to the text's decimal; `none` when a value is `inf` / `nan` (`Rec` holds finite doubles) -/
+def RRec.toRec (q : RRec) : Option Rec := do
+  let x ← q.x.toDy
+  let y ← q.y.toDy
+  let z ← q.z.toDy
+  match q.vel with
+  | none => pure ⟨q.resnum, q.resname, q.name, q.atomnum, x, y, z, none⟩
+  | some (a, b, c) =>
+    let vx ← a.toDy
+    let vy ← b.toDy
+    let vz ← c.toDy
+    pure ⟨q.resnum, q.resname, q.name, q.atomnum, x, y, z, some (vx, vy, vz)⟩
+
 /-! ## writer -/
 
 /-- `GroFile.validate_string`: names longer than five characters are cut (with a warning) -/
@@ -119,21 +201,57 @@ def validateString (s : List Nat) : List Nat := if s.length > 5 then s.take 5 el
     Python's `%` with a positive modulus is `Int.emod`. -/
 def wrap5 (n : Int) : Int := n % 100000
 
-/-- `GroFile.parse_atomlist(atomlist, format_dict)` with `format_dict = {"position": fmt, "velocities": fv}`.
-    (Tuples whose length is neither 7 nor 10 are outside the model: `Rec` cannot express them.) -/
+/-- the formatting part of `parse_atomlist` (`"".join(format_list).format(*atominfo, …)`) -/
+def atomText (fmt : Nat × Nat) (r : Rec) : List Nat :=
+  let w := fmt.1
+  let d := fmt.2
+  let head := fmtD 5 (wrap5 r.resnum) ++ padRight 5 (validateString r.resname) ++
+    padLeft 5 (validateString r.name) ++ fmtD 5 (wrap5 r.atomnum)
+  let posn := fmtFixed w d r.x ++ fmtFixed w d r.y ++ fmtFixed w d r.z
+  match r.vel with
+  | none => head ++ posn
+  | some (vx, vy, vz) =>
+    head ++ posn ++ (fmtFixed w (d + 1) vx ++ fmtFixed w (d + 1) vy ++ fmtFixed w (d + 1) vz)
+
+/-- `GroFile.parse_atomlist(atomlist, format_dict)` for a tuple of length 7 or 10 and
+    `format_dict = {"position": fmt, "velocities": fv}` -/
 def parseAtomlist (fmt : Nat × Nat) (fv : Option Bool) (r : Rec) : Except PyErr (List Nat) :=
   let velocities := r.vel.isSome
   if fv ≠ some velocities then .error .ioError
-  else
-    let w := fmt.1
-    let d := fmt.2
-    let head := fmtD 5 (wrap5 r.resnum) ++ padRight 5 (validateString r.resname) ++
-      padLeft 5 (validateString r.name) ++ fmtD 5 (wrap5 r.atomnum)
-    let posn := fmtFixed w d r.x ++ fmtFixed w d r.y ++ fmtFixed w d r.z
-    match r.vel with
-    | none => .ok (head ++ posn)
-    | some (vx, vy, vz) =>
-      .ok (head ++ posn ++ (fmtFixed w (d + 1) vx ++ fmtFixed w (d + 1) vy ++ fmtFixed w (d + 1) vz))
+  else .ok (atomText fmt r)
+
+/-- the `atomlist` argument of `parse_atomlist` / `writeline` when it is a list or tuple: of length 7 or 10
+    (a record), or of any other length (its elements are never looked at) -/
+inductive Tup
+  | ofRec (r : Rec)
+  | other (len : Nat)
+deriving DecidableEq, Repr, Inhabited
+
+/-- the `format_dict` argument: `{"position": pos, "velocities": vel}` -/
+structure FmtDict where
+  pos : Option (Nat × Nat)
+  vel : Option Bool
+deriving DecidableEq, Repr, Inhabited
+
+/-- `GroFile.parse_atomlist(atomlist, format_dict)`, every branch:
+    `format_dict is None` → `DEFAULT_POSTION_FORMAT` and no velocity check; `float_format[0]` on a `None`
+    position format → `TypeError`; a length other than 7 / 10 → `ValueError`; velocity presence different from
+    `format_dict["velocities"]` → `IOError`. (`Tup.other 7` / `Tup.other 10` do not denote a tuple the model can
+    format: explicit `unmodelled`.) -/
+def parseAtomlistG (fd : Option FmtDict) (t : Tup) : Except PyErr (List Nat) :=
+  let floatFormat : Option (Nat × Nat) :=
+    match fd with
+    | none => some defaultFormat
+    | some f => f.pos
+  match floatFormat with
+  | none => .error .typeError
+  | some fmt =>
+    match t with
+    | .other n => if n = 7 ∨ n = 10 then .error .unmodelled else .error .valueError
+    | .ofRec r =>
+      match fd with
+      | none => .ok (atomText fmt r)
+      | some f => parseAtomlist fmt f.vel r
 
 /-- state of a `GroFile` opened with mode `'w'` -/
 structure WState where
@@ -164,6 +282,9 @@ inductive Op
   | setPosFmt (w d : Nat)
   | writeLine (r : Rec)
   | close
+  | setBoxBadShape               -- `box_matrix = value` with `numpy.array(value).shape ∉ {(3,), (3,3)}`
+  | writeStr (line : List Nat)   -- `writeline(str)`: a pre-formatted line
+  | writeTup (len : Nat)         -- `writeline(tuple)` with `len(tuple) ∉ {7, 10}`
 deriving DecidableEq, Repr, Inhabited
 
 /-- the part of `writeline` after the `_init_position is None` test -/
@@ -213,6 +334,39 @@ def setupWrite (s : WState) (r : Rec) : WState × Option PyErr :=
   match writeLineBody sH r with
   | (s', some e) => (s', some e)
   | (s', none) => ({ s' with lineSize := some (s'.pos - sH.pos) }, none)
+
+/-- `writeline(str)` after the header exists: the string is written verbatim (no parsing, no check) -/
+def writeStrBody (s : WState) (line : List Nat) : WState × Option PyErr :=
+  if s.closed then (s, some .valueError)       -- I/O operation on closed file
+  else ({ (s.write line).write [nl] with cur := s.cur + 1 }, none)
+
+/-- `_setup_write_file(str)`: the string is parsed with `parse_atomline` (format inferred from the line itself)
+    and the resulting tuple goes through the ordinary first-record path — i.e. it is RE-EMITTED by
+    `parse_atomlist` in the file's own format. A raising `parse_atomline` leaves the object untouched.
+    (A line with a non-ASCII byte is outside the model: Python slices it by characters, the model by bytes.) -/
+def setupWriteStr (s : WState) (line : List Nat) : WState × Option PyErr :=
+  if line.any (fun c => 128 ≤ c) then (s, some .unmodelled) else
+  match parseAtomlineAuto stdParsers line with
+  | .error e => (s, some e)
+  | .ok q =>
+    match q.toRec with
+    | none => (s, some .unmodelled)            -- `inf` / `nan` values
+    | some r => setupWrite s r
+
+/-- `writeline(tuple)`, `len(tuple) ∉ {7, 10}`, after the header exists: `parse_atomlist` raises, nothing is
+    written -/
+def writeTupBody (s : WState) (len : Nat) : WState × Option PyErr :=
+  match parseAtomlistG (some ⟨s.fmtPos, s.fmtVel⟩) (.other len) with
+  | .error e => (s, some e)
+  | .ok _ => (s, some .unmodelled)             -- unreachable: `Tup.other` never formats
+
+/-- `_setup_write_file(tuple)`, `len(tuple) ∉ {7, 10}`: the format is fixed (`velocities = (len == 10)`), the
+    header IS written and `_init_position` set; then the inner `writeline` raises `ValueError`:
+    `_atomline_bytesize` stays `None` -/
+def setupWriteTup (s : WState) (len : Nat) : WState × Option PyErr :=
+  let s := { s with fmtPos := some s.effFormat, fmtVel := some (len == 10) }
+  if s.closed then (s, some .valueError) else
+  writeTupBody (writeHeader s s.effComment) len
 
 /-- `self._file.seek(p)` with a Python int -/
 def WState.seek (s : WState) (p : Int) : Except PyErr WState :=
@@ -284,6 +438,15 @@ def step (s : WState) : Op → WState × Option PyErr
     | none => setupWrite s r
     | some _ => writeLineBody s r
   | .close => closeOp s
+  | .setBoxBadShape => (s, some .valueError)
+  | .writeStr line =>
+    match s.initPos with
+    | none => setupWriteStr s line
+    | some _ => writeStrBody s line
+  | .writeTup len =>
+    match s.initPos with
+    | none => setupWriteTup s len
+    | some _ => writeTupBody s len
 
 /-- run a client script; an operation that raises does not stop the script (the harness does the
     same): the list of raised exceptions is returned in order -/
@@ -312,60 +475,6 @@ def snapshots (s : WState) : List Op → List (List Nat)
 
 /-! ## reader -/
 
-/-- the parsers the reader calls: `int`, `float` and `GroFile.determine_format` -/
-structure Parsers where
-  pyInt : List Nat → Except PyErr Int
-  pyFloat : List Nat → Except PyErr PyNum
-  detFormat : List Nat → Except PyErr (Nat × Int × Bool)
-
-/-- `GroFile.determine_format(atomline)` → `((nfigures, ndecimals), velocities)` -/
-def determineFormat (line : List Nat) : Except PyErr (Nat × Int × Bool) :=
-  match line.getLast? with
-  | none => .error .indexError                 -- `atomline[-1]` on ''
-  | some _ =>
-    let l := chopNl line
-    let size := l.length
-    if l.count nl > 0 then .error .valueError
-    else
-      let ndots := (l.drop coordStart).count dot
-      if ndots ≠ 3 ∧ ndots ≠ 6 then .error .ioError
-      else
-        let nfigures := (size - coordStart) / ndots
-        if size ≠ coordStart + ndots * nfigures then .error .ioError
-        else .ok (nfigures, (nfigures : Int) - 5, ndots == 6)
-
-def stdParsers : Parsers := ⟨pyInt, pyFloat, determineFormat⟩
-
-/-- `except ValueError: raise IOError(...)` -/
-def valueToIO {α : Type} : Except PyErr α → Except PyErr α
-  | .error .valueError => .error .ioError
-  | r => r
-
-/-- `GroFile.parse_atomline(atomline, format_dict)` with a given format -/
-def parseAtomline (P : Parsers) (fmt : Nat × Int × Bool) (line : List Nat) : Except PyErr RRec :=
-  match line.getLast? with
-  | none => .error .indexError
-  | some _ => do
-    let l := chopNl line
-    let space := fmt.1
-    let vel := fmt.2.2
-    let expected := 20 + space * 3 * (1 + (if vel then 1 else 0))
-    if l.length ≠ expected then throw .ioError
-    let resnum ← valueToIO (P.pyInt (slice l 0 5))
-    let atomnum ← valueToIO (P.pyInt (slice l 15 20))
-    let resname := strip (slice l 5 10)
-    let name := strip (slice l 10 15)
-    let x ← P.pyFloat (slice l 20 (20 + space))
-    let y ← P.pyFloat (slice l (20 + space) (20 + 2 * space))
-    let z ← P.pyFloat (slice l (20 + 2 * space) (20 + 3 * space))
-    if vel then
-      let vx ← P.pyFloat (slice l (20 + 3 * space) (20 + 4 * space))
-      let vy ← P.pyFloat (slice l (20 + 4 * space) (20 + 5 * space))
-      let vz ← P.pyFloat (slice l (20 + 5 * space) (20 + 6 * space))
-      pure ⟨resnum, resname, name, atomnum, x, y, z, some (vx, vy, vz)⟩
-    else
-      pure ⟨resnum, resname, name, atomnum, x, y, z, none⟩
-
 /-- a `GroFile` opened in read mode, after `_load_and_verify` -/
 structure RState where
   title : List Nat
@@ -374,7 +483,7 @@ structure RState where
   lineSize : Nat
   fmt : Nat × Int × Bool
   box : RBox
-deriving Repr, Inhabited
+deriving DecidableEq, Repr, Inhabited
 
 /-- `_load_and_verify` (with `_load_box_matrix` and `seek_atom` inlined) -/
 def loadAndVerify (P : Parsers) (bs : List Nat) : Except PyErr RState := do
@@ -392,6 +501,8 @@ def loadAndVerify (P : Parsers) (bs : List Nat) : Except PyErr RState := do
   let line := readLine bs target.toNat
   if line.isEmpty then throw .ioError
   let box ← valueToIO (extractLattice P.pyFloat line)
+  -- `self.seek_atom(0)`: `0 > natoms` for a negative count
+  if (0 : Int) > natoms then throw .indexError
   pure ⟨title, natoms, init, size, fmt, box⟩
 
 /-- `readlines()` after `seek_atom(0)`: `natoms` calls of `readline` (then `StopIteration`) -/
@@ -414,5 +525,81 @@ def groRead (P : Parsers) (bs : List Nat) : Except PyErr GroData := do
   let st ← loadAndVerify P bs
   let recs ← readRecords P st.fmt bs st.natoms.toNat st.initPos
   pure ⟨st.title, recs, st.box⟩
+
+/-! ## a `GroFile` in read mode as a cursor machine
+
+  The header attributes (`RState`) are fixed by `_load_and_verify`; what a client can change afterwards is the file
+  cursor and `_current_atom`. `_load_and_verify` ends with `seek_atom(0)`. -/
+
+/-- an open reader: header, file cursor (`tell()`), `_current_atom` -/
+structure RCur where
+  hdr : RState
+  pos : Nat
+  cur : Int
+deriving DecidableEq, Repr, Inhabited
+
+/-- client operations on a `GroFile` in read mode -/
+inductive ROp
+  | setComment (v : List Nat)
+  | setBox (b : BoxArg)
+  | setBoxBadShape
+  | setNatoms (n : Int)
+  | setPosFmt (w d : Nat)
+  | seekAtom (index : Int)
+  | readline (parsed : Bool)
+deriving DecidableEq, Repr, Inhabited
+
+/-- what an operation returns -/
+inductive RVal
+  | unit
+  | raw (line : List Nat)
+  | parsed (r : RRec)
+deriving DecidableEq, Repr, Inhabited
+
+/-- `GroFile(path)` -/
+def ropen (P : Parsers) (bs : List Nat) : Except PyErr RCur := do
+  let st ← loadAndVerify P bs
+  pure ⟨st, st.initPos, 0⟩
+
+/-- `seek_atom(index)` in read mode: `_current_atom` is assigned BEFORE the range check -/
+def rSeekAtom (s : RCur) (index : Int) : RCur × Except PyErr RVal :=
+  let s := { s with cur := index }
+  if index > s.hdr.natoms then (s, .error .indexError)
+  else
+    let target : Int := (s.hdr.initPos : Int) + index * (s.hdr.lineSize : Int)
+    if target < 0 then (s, .error .valueError)             -- negative seek position
+    else ({ s with pos := target.toNat }, .ok .unit)
+
+/-- `readline(parsed)`: the line is consumed first; `parsed=False` returns it as it is (and does not count
+    it); otherwise `StopIteration` at `natoms`, else `_current_atom += 1` and `parse_atomline(info, _format)` -/
+def rReadline (P : Parsers) (bs : List Nat) (s : RCur) (parsed : Bool) : RCur × Except PyErr RVal :=
+  let info := readLine bs s.pos
+  let s := { s with pos := s.pos + info.length }
+  if !parsed then (s, .ok (.raw info))
+  else if s.cur ≥ s.hdr.natoms then (s, .error .stopIteration)
+  else
+    let s := { s with cur := s.cur + 1 }
+    match parseAtomline P s.hdr.fmt info with
+    | .error e => (s, .error e)
+    | .ok r => (s, .ok (.parsed r))
+
+/-- one client operation in read mode. All four setters raise `AttributeError` (the `box_matrix` setter tests
+    the mode before it looks at the shape). -/
+def rstep (P : Parsers) (bs : List Nat) (s : RCur) : ROp → RCur × Except PyErr RVal
+  | .setComment _ => (s, .error .attributeError)
+  | .setBox _ => (s, .error .attributeError)
+  | .setBoxBadShape => (s, .error .attributeError)
+  | .setNatoms _ => (s, .error .attributeError)
+  | .setPosFmt _ _ => (s, .error .attributeError)
+  | .seekAtom i => rSeekAtom s i
+  | .readline parsed => rReadline P bs s parsed
+
+/-- a client script in read mode: every result, with the cursor and `_current_atom` after the operation -/
+def rrun (P : Parsers) (bs : List Nat) (s : RCur) : List ROp → RCur × List (Except PyErr RVal × Nat × Int)
+  | [] => (s, [])
+  | op :: ops =>
+    let (s1, v) := rstep P bs s op
+    let (s2, vs) := rrun P bs s1 ops
+    (s2, (v, s1.pos, s1.cur) :: vs)
 
 end Gro
